@@ -3,13 +3,18 @@ one driver (drv-gossipsub router), one property-level trace spec (TraceGossipsub
 import json
 
 
-def model(c, canary_cfg, canary_expect):
-    """(M): the single-router model satisfies all router properties; the property's canary must be rejected."""
-    c.tlc_mc("Gossipsub", "MCGossipsub.cfg", timeout=600)
+def model(c, canary_cfg, canary_expect, two_conns=False):
+    """(M): the single-router model satisfies all router properties; the property's canary must be rejected.
+    quick: 2 peers x 2 topics, one connection per peer (two for C29, where the first-connection rule matters);
+    thorough: + two connections per peer + 3 peers (one explicit)."""
+    if c.quick and not two_conns:
+        c.tlc_mc("Gossipsub", "MCGossipsub_1c.cfg", timeout=600)
+    else:
+        c.tlc_mc("Gossipsub", "MCGossipsub.cfg", timeout=900)
     c.tlc_mc("Gossipsub", "MCGossipsub_filter.cfg", timeout=300)
     c.tlc_mc("Gossipsub", canary_cfg, expect=canary_expect, timeout=300)
     if not c.quick:
-        c.tlc_mc("Gossipsub", "MCGossipsub3.cfg", timeout=1500)
+        c.tlc_mc("Gossipsub", "MCGossipsub3.cfg", timeout=2400)
 
 
 def drive(c, classes, runs_q, runs_t, length=40):
